@@ -468,6 +468,20 @@ impl<'src> Walker<'src>
 		{
             let c = self.next_char();
 
+            // Braces inside comments and string literals do not count
+            if c == ';' || c == '"'
+            {
+                let (kind, length) = syntax::decide_next_token(
+                    &self.src[self.cursor_index..self.cursor_limit]);
+
+                if kind == syntax::TokenKind::Comment ||
+                    kind == syntax::TokenKind::String
+                {
+                    self.cursor_index += length;
+                    continue;
+                }
+            }
+
             if c == '{'
 			{
 				brace_nesting += 1;
